@@ -189,4 +189,18 @@ PROPS = {
                       "injectivity of ResourceID/ScopeID (strconv.Quote, FormatInt, FormatFloat) is validated by the runs, not proved"],
         assumptions=["domain of the property"],
     ),
+    "C04": dict(
+        runs=[
+            dict(harness="codec", name="gen", phase="gen", args=lambda tier, seed, casedir, coq: ["gen", "--out", casedir]),
+            dict(harness="codec", name="options",
+                 args=lambda tier, seed, casedir, coq: ["options", "--n", str(q(tier, 70, 3000)), "--seed", str(seed)], timeout=3000, coq_timeout=3000),
+        ],
+        rule="gen: the exported With* options and ordering variants of pkg/config extracted from the current source (must be within the known baseline); options: per case one choice of dictionary limit "
+             "(default, none, 8/16/32/64 bit) x initial index x reset threshold (unset, 0, 0.3, 1, 5) x compression (default, zstd, none) x every OrderSpanBy x every OrderAttrs16By x every OrderAttrs32By "
+             "(each variant at least once, then random), a history of 2-4 batches mixing generated telemetry with dictionary-pressure batches (90-330 fresh names, repeated 1-3 times: overflow and reset regimes, "
+             "crossing 255 within a batch and over the history), decoded by a DEFAULT consumer; equivalence predicate evaluated in Coq on real input/output (batches over 150 items by its Go mirror only)",
+        trusted_base=["Arrow transport assumption: index widths, dictionary overflow/reset and zstd do not change the logical record (validated by the independent reader of C12 on every run)",
+                      "the option extractor (go/ast) and the classification in Stream/OptionsBaseline.v"],
+        assumptions=["diagnostic options (statistics printing) and allocator/observer plumbing are not content options", "cardinalities crossing 65,535 are exercised in the thorough tier only"],
+    ),
 }
